@@ -46,10 +46,18 @@ Fit(D, s) == /\ (indlat = UNSET \/ indlat[1] = D)
              /\ rng' = <<"seeded", s>> /\ last' = <<"fit", params, D, s>> /\ act' = <<"Fit", D, s>> /\ UNCHANGED <<file, inputsOK>> /\ Step
 Estimate(q) == /\ Fitted /\ last' = <<"estimate", params, q, 0>>
                /\ act' = <<"Estimate">> /\ UNCHANGED <<params, pop, data, indlat, rng, file, inputsOK>> /\ Step
+\* the same request answered as a table (ages given as a dict of lists)
+EstimateFrame(q) == /\ Fitted /\ last' = <<"estimate_frame", params, q, 0>>
+                    /\ act' = <<"EstimateFrame">> /\ UNCHANGED <<params, pop, data, indlat, rng, file, inputsOK>> /\ Step
 \* scipy_minimize: works on one cloned state per individual, starting from seeded prior samples
 PersoScipy(D, s) == /\ Fitted /\ last' = <<"scipy", params, D, s>>
                     /\ act' = <<"PersoScipy", D, s>>
                     /\ rng' = <<"seeded", s>> /\ UNCHANGED <<params, pop, data, indlat, file, inputsOK>> /\ Step
+\* scipy_minimize with the caller's own optimiser options (another method, an iteration budget): a different call, hence
+\* a different result term - and nothing of it may show in later default calls
+PersoScipyCustom(D, s) == /\ Fitted /\ last' = <<"scipy_custom", params, D, s>>
+                          /\ act' = <<"PersoScipyCustom", D, s>>
+                          /\ rng' = <<"seeded", s>> /\ UNCHANGED <<params, pop, data, indlat, file, inputsOK>> /\ Step
 \* mean / mode posterior: run on a clone of the model state, which is cleaned and put back
 PersoMcmc(D, s, how) == /\ Fitted /\ last' = <<how, params, D, s>>
                         /\ data' = "none" /\ indlat' = UNSET
@@ -57,6 +65,9 @@ PersoMcmc(D, s, how) == /\ Fitted /\ last' = <<how, params, D, s>>
                         /\ rng' = <<"seeded", s>> /\ UNCHANGED <<params, pop, file, inputsOK>> /\ Step
 Simulate(s) == /\ Fitted /\ last' = <<"simulate", params, "design", s>> /\ rng' = <<"seeded", s>>
                /\ act' = <<"Simulate", s>> /\ UNCHANGED <<params, pop, data, indlat, file, inputsOK>> /\ Step
+\* simulation on the caller's table of visits (integer identifiers)
+SimulateTable(s) == /\ Fitted /\ last' = <<"simulate_table", params, "table", s>> /\ rng' = <<"seeded", s>>
+                    /\ act' = <<"SimulateTable", s>> /\ UNCHANGED <<params, pop, data, indlat, file, inputsOK>> /\ Step
 Save == /\ Fitted /\ file' = params /\ last' = NoRes /\ act' = <<"Save">> /\ UNCHANGED <<params, pop, data, indlat, rng, inputsOK>> /\ Step
 Load == /\ file # NOFILE /\ params' = <<"file", file>> /\ pop' = "mode" /\ data' = "none" /\ indlat' = UNSET
         /\ last' = NoRes /\ act' = <<"Load">> /\ UNCHANGED <<rng, file, inputsOK>> /\ Step
@@ -69,11 +80,11 @@ FailedCall(kind) == /\ Fitted /\ last' = NoRes /\ act' = <<"FailedCall", kind>>
 BurnRng == /\ rng' = <<"arbitrary">> /\ last' = NoRes /\ act' = <<"BurnRng">> /\ UNCHANGED <<params, pop, data, indlat, file, inputsOK>> /\ Step
 
 AFit == \E D \in Datasets, s \in Seeds : Fit(D, s)
-AEstimate == Estimate("q1")
-APersoScipy == \E D \in Datasets, s \in Seeds : PersoScipy(D, s)
+AEstimate == Estimate("q1") \/ EstimateFrame("q1")
+APersoScipy == \E D \in Datasets, s \in Seeds : PersoScipy(D, s) \/ PersoScipyCustom(D, s)
 APersoMean == \E D \in Datasets, s \in Seeds : PersoMcmc(D, s, "mean")
 APersoMode == \E D \in Datasets, s \in Seeds : PersoMcmc(D, s, "mode")
-ASimulate == \E s \in Seeds : Simulate(s)
+ASimulate == \E s \in Seeds : Simulate(s) \/ SimulateTable(s)
 AFailedCall == \E kind \in FailKinds : FailedCall(kind)
 Next == /\ ncalls < MaxCalls
         /\ (AFit \/ AEstimate \/ APersoScipy \/ APersoMean \/ APersoMode \/ ASimulate \/ Save \/ Load \/ BurnRng \/ AFailedCall)
@@ -81,7 +92,7 @@ Next == /\ ncalls < MaxCalls
 ScriptedNext == /\ ncalls < Len(Script) /\ Next /\ act' = Script[ncalls + 1]
 Spec == Init /\ [][IF Script = <<>> THEN Next ELSE ScriptedNext]_vars
 -----------------------------------------------------------------------------
-IsQuery(r) == r[1] \in {"estimate", "scipy", "mean", "mode", "simulate"}
+IsQuery(r) == r[1] \in {"estimate", "estimate_frame", "scipy", "scipy_custom", "mean", "mode", "simulate", "simulate_table"}
 \* C13: a query result is a function of (call, params, inputs, seed) only -- by construction of the term: 4 components
 ResultDependsOnlyOn == IsQuery(last) => Len(last) = 4
 \* C13: queries leave parameters and population variables as they were
@@ -93,5 +104,5 @@ CallerInputsUntouched == inputsOK
 \* C12: after fit or load the population variables are the prior modes of the parameters
 PopAtMode == pop = "mode"
 \* C11: a seeded call re-seeds: the stream state before the call is irrelevant
-SeededRepeatable == [][ (last'[1] \in {"fit", "scipy", "mean", "mode", "simulate"}) => rng' = <<"seeded", last'[4]>> ]_vars
+SeededRepeatable == [][ (last'[1] \in {"fit", "scipy", "scipy_custom", "mean", "mode", "simulate", "simulate_table"}) => rng' = <<"seeded", last'[4]>> ]_vars
 =============================================================================
